@@ -319,6 +319,7 @@ func (ex *Exec) main() {
 			return
 		}
 		seenStart[call.Method]++
+		ex.observeReleaseStart(call)
 		for ti := range p.Triggers {
 			tr := p.Triggers[ti]
 			if tr.AtStart && tr.Serving && tr.Nth == 0 && tr.OnMethod == call.Method && !firedTop[ti] {
@@ -1052,7 +1053,8 @@ func (ex *Exec) leave(h *NodeH, why string) {
 // by the node itself, or RequestToLeave. [start, reply] are the logical stamps
 // of the handler's start and end: the lock was taken somewhere in between.
 type admission struct {
-	relStart int64 // stamp at which the handler of the releasing FinishJoin / FinishLeave started
+	relStarted bool  // the handler of the releasing FinishJoin / FinishLeave has started
+	relStart   int64 // ... at this stamp
 	kind         string // join | leave
 	peer         uint64 // joiner / leaver id
 	start, reply int64
@@ -1101,6 +1103,9 @@ func (ex *Exec) observeMembership(call simnet.Call) {
 		ex.adm[call.To] = append(ex.adm[call.To], &admission{kind: "leave", peer: req.GetLeaver().GetId(), start: call.Start, reply: now})
 	case "FinishJoin", "FinishLeave":
 		req := &protocol.MembershipConclusionRequest{}
+		if req.UnmarshalVT(call.ReqBody) == nil && os.Getenv("VERIF_DEBUG_FINISH") != "" {
+			simrt.Event("  %s %s->%s stabilize=%v release=%v status=%d", call.Method, call.From, call.To, req.GetStabilize(), req.GetRelease(), call.Status)
+		}
 		if req.UnmarshalVT(call.ReqBody) != nil || !req.GetRelease() || !ex.faultFree() {
 			return
 		}
@@ -1121,17 +1126,44 @@ func (ex *Exec) observeMembership(call simnet.Call) {
 			return
 		}
 		mine.released = true
-		mine.relStart = call.Start
+		if !mine.relStarted {
+			mine.relStarted, mine.relStart = true, call.Start
+		}
 		for _, b := range ex.adm[call.To] {
-			// both changes had been admitted (their handlers had answered) before the release of either began:
-			// whichever order their handlers started in, the node held two membership changes at once
-			if b != mine && b.reply < call.Start && (!b.released || b.relStart > mine.reply) {
+			// both changes had been admitted (their handlers had answered) before the handler releasing either of
+			// them had started: whichever order their handlers started in, the node held two membership changes at once
+			if b != mine && b.reply < mine.relStart && (!b.relStarted || b.relStart > mine.reply) {
 				simrt.Probe("membership-overlap-admitted")
 				nh := ex.c.ByName(call.To)
-				ex.res.Violate("C06", "second-change-admitted", "node %s admitted the %s of node %d (handler stamps [%d,%d]) while the %s of node %d held it (admitted at stamp %d, release handler started at %d); state history of %s: %v",
-					call.To, b.kind, b.peer, b.start, b.reply, mine.kind, mine.peer, mine.reply, call.Start, call.To, nh.Node.VerifHistory())
+				ex.res.Violate("C06", "second-change-admitted", "node %s admitted the %s of node %d (handler stamps [%d,%d], release handler started=%v at %d) while the %s of node %d held it (admitted at stamp %d, release handler started at %d); state history of %s: %v",
+					call.To, b.kind, b.peer, b.start, b.reply, b.relStarted, b.relStart, mine.kind, mine.peer, mine.reply, call.Start, call.To, nh.Node.VerifHistory())
 			}
 		}
+	}
+}
+
+// observeReleaseStart notes the moment the handler of a releasing FinishJoin / FinishLeave starts: from then on the lock
+// of that change may already be free again, although the reply (which a slow handler sends much later) has not been seen.
+func (ex *Exec) observeReleaseStart(call simnet.Call) {
+	if call.Method != "FinishJoin" && call.Method != "FinishLeave" {
+		return
+	}
+	req := &protocol.MembershipConclusionRequest{}
+	if req.UnmarshalVT(call.ReqBody) != nil || !req.GetRelease() {
+		return
+	}
+	caller := ex.c.ByName(call.From)
+	if caller == nil {
+		return
+	}
+	var mine *admission
+	for _, a := range ex.adm[call.To] {
+		if a.peer == caller.ID && !a.relStarted {
+			mine = a
+		}
+	}
+	if mine != nil {
+		mine.relStarted, mine.relStart = true, call.Start
 	}
 }
 
